@@ -239,6 +239,21 @@ SPECS = {
         ("inelastic_p_unaveraged", R + "Simulations/_inelastic.py", "                self.__Get_state(groupElem, MatrixType.rigi)[..., slot.start], axis=1", "                self.__Get_state(groupElem, MatrixType.rigi)[..., slot.start][:, :1], axis=1"),
         ("hyperelastic_exy_index", R + "Simulations/_hyperelastic.py", "            values_n = self.accel.reshape(Nn, -1)\n            values = values_n[:, self.__indexResult(result)]", "            values_n = self.speed.reshape(Nn, -1)\n            values = values_n[:, self.__indexResult(result)]"),
     ],
+    "C17": [
+        ("amor_dev_uses_3", R + "Models/_phasefield.py", "            np.eye(IxI.shape[0]) - 1 / dim * IxI\n        )\n        cM_e_pg = bulk * (Rm_e_pg * IxI)", "            np.eye(IxI.shape[0]) - 1 / 3 * IxI\n        )\n        cM_e_pg = bulk * (Rm_e_pg * IxI)"),
+        ("miehe_cM_uses_projP", R + "Models/_phasefield.py", "            cM_e_pg = lamb * (Rm_e_pg * IxI) + 2 * mu * projM_e_pg", "            cM_e_pg = lamb * (Rm_e_pg * IxI) + 2 * mu * (projM_e_pg + 1e-6 * projP_e_pg)"),
+        ("miehe_trace_sign", R + "Models/_phasefield.py", "            cP_e_pg = lamb * (Rp_e_pg * IxI) + 2 * mu * projP_e_pg\n            cM_e_pg = lamb * (Rm_e_pg * IxI) + 2 * mu * projM_e_pg", "            cP_e_pg = lamb * (Rm_e_pg * IxI) + 2 * mu * projP_e_pg\n            cM_e_pg = lamb * (Rp_e_pg * IxI) + 2 * mu * projM_e_pg"),
+        ("stress_plane_strain_coef", R + "Models/_phasefield.py", "                    sP_e_pg = ((1 + v) / E * projP_e_pg) - (\n                        v * (1 + v) / E * Rp_e_pg * IxI\n                    )", "                    sP_e_pg = ((1 + v) / E * projP_e_pg) - (\n                        v / E * Rp_e_pg * IxI\n                    )"),
+        ("nocross_keeps_cross", R + "Models/_phasefield.py", "            elif self.split == self.SplitType.AnisotStrain_NoCross:\n                cP_e_pg = Cpp\n                cM_e_pg = Cmm + Cpm + Cmp", "            elif self.split == self.SplitType.AnisotStrain_NoCross:\n                cP_e_pg = Cpp + Cpm\n                cM_e_pg = Cmm + Cmp"),
+        ("he_projector_transform_inverted", R + "Models/_phasefield.py", "        projP_e_pg = inv_sqrtC @ projPt_e_pg @ sqrtC\n        projM_e_pg = inv_sqrtC @ projMt_e_pg @ sqrtC", "        projP_e_pg = sqrtC @ projPt_e_pg @ inv_sqrtC\n        projM_e_pg = sqrtC @ projMt_e_pg @ inv_sqrtC"),
+        ("eigen2d_per_element", R + "Models/_phasefield.py", "                M1[elems, pdgs] = m1_tot[elems, pdgs]", "                M1[elems] = m1_tot[elems]"),
+        ("eigen3d_no_repeated_fallback", R + "Models/_phasefield.py", "            repeated = gap**2 * sqrt_g_e_pg <= 1e-6 * frobenius**3", "            repeated = frobenius == 0"),
+        ("eigen3d_m3_uses_first_vector", R + "Models/_phasefield.py", "                M3[repeated] = vects[:, :, 2, None] * vects[:, None, :, 2]", "                M3[repeated] = vects[:, :, 1, None] * vects[:, None, :, 1]"),
+        ("history_not_enforced", R + "Simulations/_phasefield.py", "            psiP_e_pg[elements, gaussPoints] = old_psiPlus_e_pg[elements, gaussPoints]", "            psiP_e_pg[elements, gaussPoints] = 0.5 * (psiP_e_pg + old_psiPlus_e_pg)[elements, gaussPoints]"),
+        ("historydamage_not_stored", R + "Simulations/_phasefield.py", "            self._Set_solutions(self.ProblemTypes.damage, d_np1)\n            self.__updatedDisplacement = False\n", ""),
+        ("history_single_buffer", R + "Simulations/_phasefield.py", "            old_psiPlus_e_pg = self.__old_psiP_e_pg.get(groupElem.elemType)", "            old_psiPlus_e_pg = next(iter(self.__old_psiP_e_pg.values()), None)"),
+        ("at1_source_not_clamped", R + "Models/_phasefield.py", "            absF = np.abs(f)\n            f = (f + absF) / 2", "            absF = np.abs(f)\n            f = (f + absF * (self.solver != self.SolverType.BoundConstrain)) / (2 - (self.solver == self.SolverType.BoundConstrain))"),
+    ],
 }
 
 
